@@ -330,7 +330,7 @@ pub fn drive(args: &[String]) {
     ];
     for s in STRINGS { insts.push(SInst { op: 7, rt: None, rid: Some(100 + insts.len() as u32), ops: vec![SOp { k: "LiteralString".into(), w: vec![], s: Some(s.as_bytes().to_vec()) }] }); }
     let mut body = vec![];
-    for (set, nums) in [(1u32, vec![1u32, 4, 31, 81, 0, 82, 5000]), (2, vec![0, 1, 162, 184, 204, 300]), (3, vec![1, 2]), (77, vec![1])] {
+    for (set, nums) in [(1u32, (0u32..=83).chain([5000]).collect::<Vec<u32>>()), (2, (0..=206).chain([300, 70000]).collect()), (3, vec![1, 2]), (77, vec![1])] {
         for nn in nums {
             body.push(SInst { op: 12, rt: Some(50), rid: Some(200 + body.len() as u32), ops: vec![SOp::one("IdRef", set), SOp::one("LiteralExtInstInteger", nn), SOp::one("IdRef", 60), SOp::one("IdRef", 61)] });
         }
